@@ -26,6 +26,7 @@ def qi(x, tol=1e-9):
 
 
 GROUTE = [0]
+CMAG = [-1]
 
 
 def events_for(darsia, rng, shape, h, tid, integer_h):
@@ -146,8 +147,12 @@ def events_for(darsia, rng, shape, h, tid, integer_h):
             v = [[[int(arr[..., a, b].ravel("F")[c]) for b in range(dim)] for a in range(dim)] for c in range(nc)]
         if kind == "vector" and dim == 1:
             continue  # shape (..., 1) is documented as the scalar form
+        # (the field in its units: order one; permeabilities of order 1e-12; counts of order 1e9 - means are homogeneous)
+        CMAG[0] += 1
+        cscale = [1.0, 1e-12, 1e9][CMAG[0] % 3]
+        arr_s = arr * cscale
         for mode in ("harmonic", "arithmetic", "harmonic", "arithmetic"):
-            res = darsia.cell_to_face_average(grid, arr, mode)
+            res = np.asarray(darsia.cell_to_face_average(grid, arr_s, mode), dtype=float) / cscale
             ev.append(dict(base, op="c2f", kind=kind, mode=mode, v=v, res=[qi(60 * x, 1e-7) for x in res]))
     # tangential and full reconstruction: one operator object each, applied to the caller's flux array and then to a second one
     if dim >= 2:
